@@ -257,7 +257,10 @@ pub fn configs(tier: Tier) -> Vec<InCfg> {
         if ver == Ver::V5 {
             // handler errors the application maps to a negative acknowledgement finish the exchange as well
             let a: Vec<T> = vec![q(1, 1), q(2, 1), T::PubRel(1), q(1, 2)];
-            variants.push((a, if tier == Tier::Quick { 3 } else { 4 }, vec![], vec![GateOutcome::Ok, GateOutcome::Nack(0x80)]));
+            variants.push((a.clone(), if tier == Tier::Quick { 3 } else { 4 }, vec![], vec![GateOutcome::Ok, GateOutcome::Nack(0x80)]));
+            // ... while a PUBREC with a non-zero *success* code (0x10 No matching subscribers) leaves the exchange
+            // open until PUBREL (seeded change C11_r5 released the id for every code other than 0x00)
+            variants.push((a, if tier == Tier::Quick { 3 } else { 4 }, vec![], vec![GateOutcome::Ok, GateOutcome::Nack(0x10)]));
         }
         // a duplicate whose payload arrives in pieces: v5 refuses it and carries on, v3 ends the connection
         variants.push((vec![q(1, 1), T::PubSplit { qos: 1, id: 1, len: 6 }, q(1, 2)], if tier == Tier::Quick { 3 } else { 4 }, vec![], vec![GateOutcome::Ok]));
